@@ -1,5 +1,6 @@
 import DnsVerif.Props.C06
 import DnsVerif.Lemmas.RTMsg
+import DnsVerif.Lemmas.ExtraF
 
 /-! # C02 — decode → encode → decode returns the identical message
 
@@ -49,5 +50,93 @@ theorem identical_record {r' r : RR} :
 
 /-- decoded values are well-formed (also C12: decoding yields only valid values) -/
 theorem decoded_wf {b : Bytes} {m : Msg} {d : D} (h : decodeDns b = .ok (m, d)) : WfMsg m := RT.decodeDns_wf h
+
+
+/-! ## The exact relation: what `norm` hides, and that it hides nothing from the second pass on
+
+`Msg.norm` = `Msg.lower` (Spec/Wire.lean: names lower-cased, nothing else) + the key list of every
+`mandatory` SvcParam sorted. So "identical in every field … every SVCB parameter value" holds of the FIRST
+round trip except that an unsorted `mandatory` list comes back sorted (`roundtrip_params_exact`), and of
+every further round trip without exception (`roundtrip_second_pass_exact`). -/
+
+/-- `SvcParam.norm` sorts the key list of `mandatory` … -/
+theorem norm_param_mandatory (ks : List Nat) : SvcParam.norm (.mandatory ks) = .mandatory (sortNat ks) :=
+  ExtraF.svcParam_norm_mandatory ks
+/-- … and does nothing to any other parameter -/
+theorem norm_param_other {p : SvcParam} (h : ∀ ks, p ≠ .mandatory ks) : p.norm = p := ExtraF.svcParam_norm_other h
+/-- the parameters it leaves alone: all but the `mandatory` lists that are not ascending -/
+theorem norm_param_fixed_iff {p : SvcParam} : p.norm = p ↔ ∀ ks, p = .mandatory ks → ks.Pairwise (· ≤ ·) :=
+  ExtraF.svcParam_norm_eq_self_iff
+theorem sortNat_fixed_iff (ks : List Nat) : sortNat ks = ks ↔ ks.Pairwise (· ≤ ·) := ExtraF.sortNat_eq_self_iff ks
+
+/-- what "identical" means for one parameter, one field, one RDATA -/
+theorem identical_param {p' p : SvcParam} :
+    p'.norm = p.norm ↔ (∃ ks' ks, p' = .mandatory ks' ∧ p = .mandatory ks ∧ sortNat ks' = sortNat ks) ∨
+      ((∀ ks, p ≠ .mandatory ks) ∧ p' = p) := RT.svcParam_norm_eq_iff
+theorem identical_field {v' v : FVal} :
+    v'.lower = v.lower ↔ (∃ n' n, v' = .name n' ∧ v = .name n ∧ n'.lower = n.lower) ∨ ((∀ n, v ≠ .name n) ∧ v' = v) :=
+  RT.fval_lower_eq_iff
+theorem identical_rdata {r' r : RData} :
+    r'.norm = r.norm ↔
+      match r with
+      | .fields vs => ∃ vs', r' = .fields vs' ∧ vs'.map FVal.lower = vs.map FVal.lower
+      | .svcb p t ps => ∃ t' ps', r' = .svcb p t' ps' ∧ t'.lower = t.lower ∧
+          ps'.map SvcParam.norm = ps.map SvcParam.norm
+      | _ => r' = r := ExtraF.rdata_norm_eq_iff
+
+/-- the abstraction of the specification, `Msg.lower`: identical except for the ASCII case of names -/
+theorem lower_means {m' m : Msg} :
+    m'.lower = m.lower ↔ m'.id = m.id ∧ m'.flags = m.flags ∧
+      m'.qs.map Question.lower = m.qs.map Question.lower ∧ m'.an.map RR.lower = m.an.map RR.lower ∧
+      m'.ns.map RR.lower = m.ns.map RR.lower ∧ m'.ar.map RR.lower = m.ar.map RR.lower := ExtraF.msg_lower_eq_iff
+theorem lower_record {r' r : RR} :
+    r'.lower = r.lower ↔ r'.name.lower = r.name.lower ∧ r'.ty = r.ty ∧ r'.cls = r.cls ∧ r'.ttl = r.ttl ∧
+      r'.rd.lower = r.rd.lower := ExtraF.rr_lower_eq_iff
+/-- in particular EVERY SvcParam is identical (the list `ps` itself) -/
+theorem lower_rdata {r' r : RData} :
+    r'.lower = r.lower ↔
+      match r with
+      | .fields vs => ∃ vs', r' = .fields vs' ∧ vs'.map FVal.lower = vs.map FVal.lower
+      | .svcb p t ps => ∃ t', r' = .svcb p t' ps ∧ t'.lower = t.lower
+      | _ => r' = r := ExtraF.rdata_lower_eq_iff
+
+/-- `m.norm = m.lower` says exactly: every `mandatory` key list of the message is ascending -/
+theorem sorted_means {m : Msg} :
+    m.norm = m.lower ↔ ∀ rr ∈ EncLim.msgRRs m, ∀ p t ps, rr.rd = .svcb p t ps →
+      ∀ ks, SvcParam.mandatory ks ∈ ps → ks.Pairwise (· ≤ ·) := ExtraF.msg_norm_eq_lower_iff'
+
+/-- the uncompressed size does not depend on name case or the order of `mandatory` keys -/
+theorem usize_of_identical {m' m : Msg} (h : m'.norm = m.norm) : m'.usize = m.usize := ExtraF.usize_of_norm h
+
+/-- **first pass, exactly**: the result `m'` is `m` up to `norm`, and ITS `mandatory` lists are sorted
+(`m'.norm = m'.lower`): each SvcParam of `m'` is the corresponding one of `m`, except that a `mandatory`
+list is the sorted original (`identical_param`, `norm_param_mandatory`, `norm_param_other`) -/
+theorem roundtrip_params_exact {b : Bytes} {m : Msg} {d : D} (h : decodeDns b = .ok (m, d)) (hsz : m.usize ≤ 65535) :
+    ∃ b' m' d', encodeDns m = .ok b' ∧ decodeDns b' = .ok (m', d') ∧ m'.norm = m.norm ∧ m'.norm = m'.lower := by
+  obtain ⟨b', m', d', h1, h2, h3, h4, _⟩ := ExtraF.roundtrip_twice h hsz
+  exact ⟨b', m', d', h1, h2, h3, h4⟩
+
+/-- **second pass, exactly**: applying the round trip once more to `m'` succeeds and changes nothing but
+(possibly) the ASCII case of names: `m''.lower = m'.lower` — every SvcParam value of `m''` IS the one of `m'` -/
+theorem roundtrip_second_pass_exact {b : Bytes} {m : Msg} {d : D} (h : decodeDns b = .ok (m, d)) (hsz : m.usize ≤ 65535) :
+    ∃ b' m' d', encodeDns m = .ok b' ∧ decodeDns b' = .ok (m', d') ∧ m'.norm = m.norm ∧ m'.norm = m'.lower ∧
+      ∃ b'' m'' d'', encodeDns m' = .ok b'' ∧ decodeDns b'' = .ok (m'', d'') ∧ m''.lower = m'.lower :=
+  ExtraF.roundtrip_twice h hsz
+
+/-- the general form: whatever is decoded from the encoder's output for a well-formed value has sorted
+`mandatory` lists, and a further round trip reproduces it up to `Msg.lower` -/
+theorem decoded_of_encoded_sorted {m m' : Msg} {b : Bytes} {d : D} (hwf : WfMsg m) (h : encodeDns m = .ok b)
+    (hd : decodeDns b = .ok (m', d)) : m'.norm = m.norm ∧ m'.norm = m'.lower := ExtraF.decoded_of_encoded_sorted hwf h hd
+theorem second_pass_exact {m m' m'' : Msg} {b b' : Bytes} {d d' : D} (hwf : WfMsg m) (h : encodeDns m = .ok b)
+    (hd : decodeDns b = .ok (m', d)) (h' : encodeDns m' = .ok b') (hd' : decodeDns b' = .ok (m'', d')) :
+    m''.lower = m'.lower := ExtraF.second_pass_exact hwf h hd h' hd'
+
+/-- non-vacuity: an accepted HTTPS answer with `mandatory=port,alpn` in the wire order 3, 1 (so the decoded
+value is NOT in normal form) goes through both passes -/
+example : ExtraF.exSvcMsg.norm ≠ ExtraF.exSvcMsg.lower ∧
+    ∃ b' m' d', encodeDns ExtraF.exSvcMsg = .ok b' ∧ decodeDns b' = .ok (m', d') ∧ m'.norm = ExtraF.exSvcMsg.norm ∧
+      m'.norm = m'.lower ∧
+      ∃ b'' m'' d'', encodeDns m' = .ok b'' ∧ decodeDns b'' = .ok (m'', d'') ∧ m''.lower = m'.lower :=
+  ⟨ExtraF.exSvcMsg_unsorted, roundtrip_second_pass_exact ExtraF.exSvcBuf_decoded (by decide)⟩
 
 end C02
